@@ -9,13 +9,19 @@ RULE = ("programs generated from the full header/body model (lets of any sign/ma
 ASSUMPTIONS = ["reference meaning (vf/meaning.py) reads IR objects through public attributes only",
                "autoload_pulses=False: pulse imports are kept as statements, not loaded"]
 TIERS = {"quick": {"shards": 8, "budget_s": 40}, "thorough": {"shards": 16, "budget_s": 300}}
-REQUIRE = {"route:text": 50, "route:build": 50, "lit:float-exp": 5, "node:subcircuit_block": 20, "map:6": 20, "node:macro": 20}
+REQUIRE = {"route:text": 50, "route:build": 50, "route:build-lists": 50, "lit:float-exp": 5, "node:subcircuit_block": 20, "map:6": 20, "node:macro": 20}
 
 
 def build_circuit(prog, route):
     if route == "text":
         return lib.parse(sx.to_text(prog))
+    if route == "build-lists":
+        return lib.build(_lists(prog))
     return lib.build(prog)
+
+
+def _lists(x):
+    return [_lists(v) for v in x] if isinstance(x, tuple) else x
 
 
 def judge(case):
@@ -120,7 +126,7 @@ def process(ctx, case, seen):
 def shard(ctx):
     rec = ctx.rec
     monitors.install_contracts()
-    n = ctx.scale(6000, 300000)
+    n = ctx.scale(48000, 300000)
     seen = {}
     i = 0
     while i < n and not rec.expired():
@@ -129,7 +135,7 @@ def shard(ctx):
         g = gen.ProgGen(rng, max_depth=rng.choice([2, 3, 4, 6]), need_register=rng.random() < 0.9,
                         p_hostile_names=rng.choice([0.0, 0.15, 0.3]), macro_sub=rng.random() < 0.3)
         prog = g.program()
-        route = "text" if rng.random() < 0.6 else "build"
+        route = "text" if rng.random() < 0.6 else rng.choice(["build", "build-lists"])
         case = {"prog": prog, "route": route}
         for k, v in sx.features(prog).items():
             if k != "depth":
